@@ -24,7 +24,7 @@ type ATable struct {
 	rows                      []*Row
 	nColumns                  int
 	columnNames               map[string]int
-	columns                   []column    // has nColumns+1 entries
+	columns                   []*column   // has nColumns+1 entries; pointers, so that handles stay valid as the table grows
 	tableItselfCallbacks      callbackSet // only useful for render-time
 	tableCellCallbacks        callbackSet
 	tableRowAdditionCallbacks callbackSet
@@ -43,9 +43,9 @@ func New() *ATable {
 	t := &ATable{
 		ErrorContainer: NewErrorContainer(),
 		rows:           make([]*Row, 0, 50),
-		columns:        make([]column, 1, 10),
+		columns:        make([]*column, 1, 10),
 	}
-	t.columns[0].ofTable = t
+	t.columns[0] = &column{ofTable: t}
 	return t
 }
 
@@ -55,9 +55,9 @@ func (t *ATable) resizeColumnsAtLeast(newCount int) {
 	}
 	// include space for column 0 as well
 	// this could be optimized to reduce copying while len<cap
-	extraColumns := make([]column, newCount+1-len(t.columns))
+	extraColumns := make([]*column, newCount+1-len(t.columns))
 	for i := range extraColumns {
-		extraColumns[i].ofTable = t
+		extraColumns[i] = &column{ofTable: t}
 	}
 	t.columns = append(t.columns, extraColumns...)
 	t.nColumns = newCount
@@ -72,7 +72,7 @@ func (t *ATable) Column(n int) *column {
 	if n < 0 || n > t.nColumns {
 		return nil
 	}
-	return &t.columns[n]
+	return t.columns[n]
 }
 
 // NewTableWithHeaders() might allow auto-sizing?
